@@ -399,7 +399,7 @@ fn verify_dir<D: Distance>(
         // the recovered environment is writable and buildable
         let mut wtxn = tenv.env.write_txn().map_err(|e| Fail::Infra(format!("{e}")))?;
         w.add_item(&mut wtxn, 123_456_789, &vec![0.5; isp.dims]).map_err(|e| Fail::Infra(format!("{e:?}")))?;
-        let b = BuildOpts { ix: 0, n_trees: Some(2), split_after: None, avail_mem: None, rng_seed: 5, threads: 1, cancel_at: None };
+        let b = BuildOpts { ix: 0, n_trees: Some(2), split_after: None, avail_mem: None, rng_seed: 5, threads: 1, cancel_at: None, twice: false };
         match do_build::<D>(&w, &mut wtxn, &b, poll_bound(m.items.len() + 1, 8)) {
             BuildOutcome::Ok { .. } => {
                 // what the recovery build produced must be a valid index, too (leftovers of the killed
